@@ -9,9 +9,9 @@ CRASH = "deterministic simulation with fault injection: every journal position o
 CONC = "deterministic simulation: client tasks interleaved by the seeded scheduler at every lock boundary and file call; "
 TB = "Trusts: the simulator (vrewrite import rebinding, vsync lock semantics, vos journal/durability model, vclock), the reference model, tmpfs. Seeded sampling: evidence, not proof."
 CHECKS = {
- "C01": ("exploration", SEQ + "reference-map oracle after every step",
-         "Operation sequences x value sizes (aimed at block boundaries as observed in the I/O journal) x configurations; every read and periodic full dumps compared with a reference map.",
-         TB + " Fault-free arm kept separate on purpose.", "DESIGN.md 4 C01"),
+ "C01": ("exploration", SEQ + "reference-map oracle after every step; in a quarter of the runs the process may die between two operations (also inside a batch) and the history continues on the recovered database",
+         "Operation sequences x value sizes (aimed at block boundaries as observed in the I/O journal) x configurations; bulk loads of 40..400 keys, keys longer than a block, Fold call-backs that write; every read and periodic full dumps compared with a reference map.",
+         TB, "DESIGN.md 4 C01"),
  "C02": ("exploration", SEQ + "restart as a generated step with an independently drawn reader configuration; dump before Close == dump after Open == model",
          "Histories x end offsets (biased to every distance from a block boundary) x (writer, reader) configuration pairs; Open must not fail or panic after a clean Close.",
          TB, "DESIGN.md 4 C02"),
@@ -36,8 +36,8 @@ CHECKS = {
  "C09": ("exploration", CONC + "binary built with the Go race detector; scheduler hand-offs invisible to it, vsync emits exactly sync's annotations, so reports are races of the engine's own synchronisation on replayable schedules; plus panics, exact deadlock, undocumented errors",
          "All listed public calls from 2..16 tasks, each index type, tiny files forcing rotations.",
          TB + " TSan shadow memory bounded (4 accesses per word): misses possible per schedule, never false alarms.", "DESIGN.md 4 C09"),
- "C10": ("exploration", SEQ + "frozen sorted-slice cursor model for iterator sessions (forward seeks only); concurrent arm: snapshot isolation against writers via porcupine",
-         "Key sets x shard layouts x index types x call sequences x direction x prefixes; writes interleaved after creation.",
+ "C10": ("exploration", SEQ + "frozen sorted-slice cursor model for iterator sessions (forward seeks only); Fold call-backs that overwrite and delete keys during the scan; concurrent arm: snapshot isolation of iterators and Fold against writers via porcupine",
+         "Key sets (incl. bulk loads of hundreds of keys) x shard layouts x index types x call sequences x direction x prefixes; writes interleaved after creation and from inside Fold.",
          TB, "DESIGN.md 4 C10"),
  "C11": ("exploration", "deterministic simulation (fault-free, one client) of the exported datafile API on the simulated disk, both back-ends in lock-step; sizes observed at the disk seam",
          "Start offset x end distance grid (thorough: complete sweep of 32768 start offsets x 19 end distances), varint widths, staged flushes, reopen; round-trip, positions, sizes, logical==physical, byte-identical back-ends.",
@@ -54,7 +54,7 @@ CHECKS = {
  "C15": ("exploration", SEQ + "hostile caller: one reused key buffer and one reused value buffer poisoned after every return, canaries, kept Get results; reference map keeps running",
          "All index types, repeated Batch.Put on one key, arbitrary later Puts; sync.Pool replaced by a deterministic LIFO so pool-mediated aliasing reproduces.",
          TB, "DESIGN.md 4 C15"),
- "C16": ("exploration", CONC + "in-process opener tasks plus one real child process driven in lock-step; Open/Close outcomes checked with porcupine against a single-holder lock model; a janitor damages/repairs an older file so Opens fail after taking the lock",
+ "C16": ("exploration", CONC + "in-process opener tasks plus one real child process driven in lock-step; Open/Close outcomes checked with porcupine against a single-holder lock model; a janitor damages/repairs an older file so Opens fail after taking the lock; holders use their handle (Merge, Sync, Backup, batch, scans) while others try to open",
          "Interleavings of Open/Close/failing Open by several goroutines and another process; rejected Opens leave journal / directory hash unchanged; directory openable afterwards.",
          TB + " flock(2) semantics equal within and across processes; GC off during a run.", "DESIGN.md 4 C16"),
  "C17": ("exploration", SEQ + "Stat recomputed at every step by scanning the files with the package's own reader; size-limit rule per file; 15% of the runs: concurrent clients under the seeded scheduler, Stat recomputed at quiescence and after the restart",
@@ -64,10 +64,10 @@ CHECKS = {
          "Merges x configurations x both I/O types x multi-file outputs.",
          TB, "DESIGN.md 4 C18"),
  "C19": ("exploration", SEQ + "data-type layer under the simulated clock (TTL boundaries hit at expiry-1ns/expiry/expiry+1ns) with restarts; normalised replies vs an abstract-type model",
-         "Command sequences over 1..4 keys mixing all five types, deletions, re-creations, restarts.",
+         "Command sequences over 1..4 keys mixing all five types, deletions, re-creations, restarts; collections grown to hundreds of elements, scores at the edges of float64, lives from microseconds to beyond int64 nanoseconds.",
          TB + " Documented relaxations: emptied collection keeps its type; expired-undeleted string may answer either way to non-string commands.", "DESIGN.md 4 C19"),
  "C20": ("exploration", SEQ + "Backup as a generated step, the copy opened while the source stays open; concurrent arm: backup vs writers, copy content as reads at the Backup interval (porcupine)",
-         "Histories x both I/O types x repeated backups x large Puts right after an mmap backup.",
+         "Histories x both I/O types x repeated backups (fresh, existing, oddly named destinations, the directory of the previous backup) x large Puts right after an mmap backup x process deaths before the backup.",
          TB, "DESIGN.md 4 C20"),
 }
 PENDING = {}
